@@ -648,10 +648,9 @@ def gen_population(fam: Family, rng: core.Rng):
 def ctor_safe(fam: Family, f: int) -> bool:
     """may field f be given to the constructor?  Containers only, and every field of the SAME object that inference writes
     (its super-properties in that class) must be declared before f: __init__ assigns the fields in declaration order and
-    inference into a field that does not exist yet raises AttributeError (known finding C15-c).  Company.members is left out
-    for the value-equal dataclasses of the university model (C15-c as well)."""
+    inference into a field that does not exist yet raises AttributeError (known finding C15-c)."""
     ci, name, _ = fam.flds[f]
-    if fam.kind[f] == "scalar" or (fam.key == "U" and name == "members"):
+    if fam.kind[f] == "scalar":
         return False
     order = [x.name for x in dc_fields(fam.classes[ci])]
     return all(order.index(fam.flds[g][1]) < order.index(name) for g in fam.sups.get((ci, f), []))
@@ -781,6 +780,25 @@ def in_equal_twins_class(descr, spec) -> bool:
     return False
 
 
+def fields_agree(descr, impl_V, spec_set) -> bool:
+    """C15_list_fields_agree / C15_set_fields_agree: list and single-valued fields hold exactly the closure's relations, by identity;
+    a set field holds only relations of the closure and, for each of them, an element ==-equal to the target (a Python set cannot
+    hold two equal objects)."""
+    fam = families()[descr["fam"]]
+    rep_ = dict(twin_classes(descr["pop"]))
+    V, S = set(impl_V), set(spec_set)
+    if not V <= S:
+        return False
+    cov = {(s, f, rep_.get(t, t)) for s, f, t in V}
+    for s, f, t in S:
+        if fam.kind[f] == "set":
+            if (s, f, rep_.get(t, t)) not in cov:
+                return False
+        elif (s, f, t) not in V:
+            return False
+    return True
+
+
 def decide(rep: core.Report, descr, impl, model, spec, model_ok: bool, stats) -> Optional[dict]:
     """returns a violation record or None"""
     impl_E, impl_V = norm(impl["E"]), norm(impl["V"])
@@ -795,8 +813,9 @@ def decide(rep: core.Report, descr, impl, model, spec, model_ok: bool, stats) ->
         problems.append("graph relations differ from the closure of the asserted facts")
     if len(set(impl_E)) != len(impl_E):
         problems.append("a relation is stored twice in the graph")
-    if sorted(set(impl_V)) != spec_set:
-        problems.append("field contents differ from the closure of the asserted facts")
+    if not fields_agree(descr, impl_V, spec_set):
+        problems.append("field contents differ from the closure of the asserted facts (list and single-valued fields object by object, "
+                        "set fields up to ==)")
     if model_ok:
         if model == -1:
             rep.oblige("model:fuel", False, f"model ran out of fuel on {descr}")
@@ -829,8 +848,8 @@ def run(tier: str, seed: int, replay=None) -> int:
         "container assignment only onto an empty field (assignment onto a non-empty field is retraction, which the graph does not do)",
         "every descriptor with an inverse finds a field of the inverse descriptor class on the target or its role taker (otherwise ValueError by design)",
         "instance classes own their descriptors directly (no instances of subclasses of a descriptor-owning class)",
-        "field agreement is proved when no two distinct objects compare equal; K_equal_twins (C15-b) is refuted and its instances must match the model exactly",
-        "constructor arguments: non-empty containers only, and only where every same-object field written by inference is declared earlier (K_ctor_halfbuilt, C15-c/d, replayed from witnesses)",
+        "field agreement: list and single-valued fields object by object; set fields up to == (a Python set cannot hold two equal objects: the graph still records the relation to each of them)",
+        "constructor arguments: non-empty containers only, and only where every same-object field written by inference is declared earlier (K_ctor_halfbuilt, C15-c, replayed from its witness)",
     ]
     rep.rule = ("random populations whose objects are partly built with NON-EMPTY containers handed to the constructor, in family N partly with two distinct objects that compare and hash equal; random assertion histories (1-9 write operations: append/insert/extend/+=/assignment, add/update/|=, scalar assignment) "
                 "over random populations of the university model and of three harness-defined schemas (diamond of sub-properties + transitive "
